@@ -6,6 +6,7 @@ let dispatch kind args =
   | "toobj" | "toobjalt" | "toiface" | "rtobj" | "rtobjalt" | "rtgo" -> C20.run kind args
   | "binop" | "vmbinop" | "equal" | "vmequal" | "nequal" | "vmnequal" | "unop" | "vmunop" -> C15.run kind args
   | "skelvm" | "skelsem" -> C03.run kind args
+  | "v1conv" | "v1reloc" -> C11.run kind args
   | _ -> failwith ("unknown kind " ^ kind)
 
 let () =
